@@ -33,6 +33,7 @@ func checkC14(c *Ctx, r *Report) {
 	poolGetSize(c, r, "C14.R1.pool-get-size", "after a restart with a larger UDPSize the pool still hands out the old, shorter buffers: datagrams that fit the configured size are cut, fail to decode and never reach the handler")
 	muxAnyQuestion(c, r, "C14.R5.any-question")
 	defaultsSameField(c, r, "C14.R3.defaults-same-field")
+	borrow(c, r, c12R4, "C12.R4.pool-release", "C14.R1.pool-release", 2, "the receive buffer is not used after it went back to the pool", nil, "TSIG stripping rewrites the header of the next datagram read into the buffer: that request is answered under another ID, or reaches the handler changed")
 }
 
 func isHandlerInvoke(in ssa.Instruction) bool {
